@@ -191,6 +191,20 @@ func runHelperF(name, params, streams string) (result string) {
 		c = helper.Pow(in(0), -1)
 	case "RoundDigits0":
 		c = helper.RoundDigits(in(0), 0)
+	case "CountF": // a fractional start value: p0/10, negated when p1 = 1
+		from := float64(p(0)) / 10
+		if p(1) == 1 {
+			from = -from
+		}
+		c = helper.Count(from, in(0))
+	case "KeepPositivesF":
+		c = helper.KeepPositives(in(0))
+	case "KeepNegativesF":
+		c = helper.KeepNegatives(in(0))
+	case "AbsF":
+		c = helper.Abs(in(0))
+	case "SignF":
+		c = helper.Sign(in(0))
 	default:
 		return "ERR unknown-helper"
 	}
@@ -380,6 +394,25 @@ func runBst(typ, opsS string, shape bool) (result string) {
 }
 
 var _ = math.Abs
+
+// BSTF: Bst[float64] over arbitrary (hex-encoded) float64 values — fractions, neighbouring doubles, subnormals
+func init() {
+	extraHandlers["BSTF"] = func(a []string) (result string) {
+		defer func() {
+			if r := recover(); r != nil {
+				result = fmt.Sprintf("panic %v", r)
+			}
+		}()
+		if len(a) != 1 {
+			return "ERR bad-command"
+		}
+		parse := func(s string) (float64, bool) {
+			f, err := floatOfHex(s)
+			return f, err == nil
+		}
+		return bstOps(splitList(a[0], ","), parse, hexOfFloat, false)
+	}
+}
 
 type shadowNode[T helper.Number] struct {
 	value T
